@@ -319,6 +319,7 @@ func init() {
 				rep.sample(map[string]interface{}{"config": cfg.String(), "resize": re.String(), "prior_ops": len(prior), "further_ops": len(further)})
 			}
 		}
+		rep.ModelCalls = c14Model.N
 		return rep.finish(f)
 	})
 }
